@@ -261,14 +261,8 @@ def dist_checks(ctx, drv):
                 ctx.fail('vignetting factors can only shrink the sampled pupil (%s)' % name, case, None)
 
 
-def run(tier, seed, replay=None):
-    ctx = Ctx('C03', tier, seed)
-    ctx.stats['rule'] = ('lens x aperture type x field type x object distance x telecentric flag x vignetting table, '
-                         'Hy in [-1,1], 8 pupil points incl. chief and marginal; every named distribution for '
-                         'n = 1..32 (thorough ..128); rejected combinations included; distinct by descriptor hash')
-    aud = audit('C03')
+def work(ctx, cases):
     drv = Driver()
-    cases = [replay] if replay else [gen_case(ctx.rng) for _ in range(300 if ctx.quick() else 20000)]
     lines, keep = [], []
     for case in cases:
         if 'desc' not in case:
@@ -295,7 +289,7 @@ def run(tier, seed, replay=None):
         lines.append('raygen ' + ' '.join(sys_t + ['g'] + q))
         lines.append('raygen ' + ' '.join(sys_t + ['t'] + q))
         fs = optic.fields.fields
-        hq = [ctx.rng.uniform(0, 1.2) for _ in range(4)] + [0.0, 1.0]
+        hq = [(0.17 * (k + 1) * (1 + case['wi'])) % 1.2 for k in range(4)] + [0.0, 1.0]
         lines.append('vig %d %s %d %s' % (len(fs), ' '.join(fhex(v) for f in fs for v in (f.x, f.y, f.vx, f.vy)),
                                           len(hq), ' '.join(fhex(0.0) + ' ' + fhex(h) for h in hq)))
         keep.append((case, optic, w, gen, gnr, hq))
@@ -332,6 +326,18 @@ def run(tier, seed, replay=None):
                      [optic.aperture.ap_type, optic.field_type, inf, optic.obj_space_telecentric])
         if not must_reject and isinstance(gen, tuple):
             ctx.fail('representable combination is traced, not rejected', case, gen[1])
+
+
+def run(tier, seed, replay=None):
+    ctx = Ctx('C03', tier, seed)
+    ctx.stats['rule'] = ('lens x aperture type x field type x object distance x telecentric flag x vignetting table, '
+                         'Hy in [-1,1], 8 pupil points incl. chief and marginal; every named distribution for '
+                         'n = 1..32 (thorough ..128); rejected combinations included; distinct by descriptor hash')
+    aud = audit('C03')
+    drv = Driver()
+    cases = [replay] if replay else [gen_case(ctx.rng) for _ in range(300 if ctx.quick() else 20000)]
+    from .core import run_parallel
+    run_parallel(ctx, 'harness.c03', 'work', [c for c in cases if 'desc' in c], nproc=4 if ctx.quick() else None)
     if not replay:
         dist_checks(ctx, drv)
     return finish(ctx, aud,
